@@ -52,6 +52,8 @@ type cfgHarness struct {
 	configAt  []time.Duration              // when each of them was installed
 	prev      *model.ClusterStatus
 	idsSeen   map[int64]string // shard id -> namespace it was first seen in
+	termOf    map[int64]int64  // shard id -> highest term seen in a stored status (C05: the durable term never goes back)
+	termSent  map[int64]int64  // shard id -> highest term the coordinator has sent in a NewTerm request
 	idsGone   map[int64]bool
 	maxID     int64
 	nsEpoch   map[string]int // how often a namespace name has been (re)created
@@ -195,6 +197,13 @@ func (h *cfgHarness) onStore(n int, cs *model.ClusterStatus) {
 			if sh.Status != model.ShardStatusDeleting {
 				live = append(live, hashRng{id, sh.Int32HashRange.Min, sh.Int32HashRange.Max})
 			}
+			// C05: the coordinator's durable term of a shard never goes back, in particular not below a
+			// term it has already sent out (config changes and elections write the same record)
+			if prev, ok := h.termOf[id]; ok && sh.Term < prev {
+				h.fail("C05", "stored-term-decreased", "stored status #%d: shard %d (namespace %q) has term %d, an earlier stored status had term %d (highest term sent in a NewTerm request so far: %d)", n, id, name, sh.Term, prev, h.termSent[id])
+				return
+			}
+			h.termOf[id] = sh.Term
 		}
 		if cur, _ := h.nsConfig(name); cur == nil && len(live) > 0 {
 			// the namespace was removed from the configuration: its shards are on their way out.  (A
@@ -367,6 +376,18 @@ func (h *cfgHarness) labelsOf(l []model.Server) string {
 
 // tap: shard assignments on the wire.
 func (h *cfgHarness) tap(t *TapMsg) {
+	if !t.Dropped && t.Kind == "req" && t.Src == "coord" && strings.HasSuffix(t.Method, "/NewTerm") {
+		req := &proto.NewTermRequest{}
+		if pb.Unmarshal(t.Payload, req) == nil {
+			h.mu.Lock()
+			if req.Term > h.termSent[req.Shard] {
+				h.termSent[req.Shard] = req.Term
+			}
+			h.r.Count("newterm_requests_seen", 1)
+			h.mu.Unlock()
+		}
+		return
+	}
 	if t.Dropped || t.Kind != "data" || len(t.Payload) == 0 {
 		return
 	}
@@ -516,7 +537,7 @@ func runConfigHistory(r *Run, prop string) {
 	w := NewWorld(r, defaultNetCfg(g))
 	defer w.Close()
 	wal.DefaultFactoryOptions.SegmentSize = 32 * 1024 // dozens of shard replicas are created per run
-	h := &cfgHarness{r: r, w: w, g: g, prop: prop, labels: map[string]map[string]string{}, idsSeen: map[int64]string{}, idsGone: map[int64]bool{},
+	h := &cfgHarness{r: r, w: w, g: g, prop: prop, labels: map[string]map[string]string{}, idsSeen: map[int64]string{}, termOf: map[int64]int64{}, termSent: map[int64]int64{}, idsGone: map[int64]bool{},
 		maxID: -1, nsEpoch: map[string]int{}, published: map[string][]hashRng{}}
 	for i := 1; i <= 6; i++ {
 		h.pool = append(h.pool, fmt.Sprintf("n%d", i))
